@@ -169,13 +169,44 @@ def run_rename(args):
     return ("whole-tree-rename-locals", "keep", "silent", "", [])
 
 
+def _flip_compares(src):
+    """Every binary comparison written the other way round (`a < b` -> `b > a`, `x == 0` -> `0 == x`)."""
+    import ast as _ast
+    FL = {_ast.Lt: _ast.Gt, _ast.Gt: _ast.Lt, _ast.LtE: _ast.GtE, _ast.GtE: _ast.LtE, _ast.Eq: _ast.Eq, _ast.NotEq: _ast.NotEq}
+    t = _ast.parse(src)
+    for n in _ast.walk(t):
+        if isinstance(n, _ast.Compare) and len(n.ops) == 1 and type(n.ops[0]) in FL:
+            n.left, n.comparators, n.ops = n.comparators[0], [n.left], [FL[type(n.ops[0])]()]
+    out = _ast.unparse(t) + "\n"
+    compile(out, "<flipped>", "exec")
+    return out
+
+
+def run_flip(args):
+    prop, root, base_sig = args
+    base = Tree(root)
+    try:
+        ov = {rel: _flip_compares(m.src) for rel, m in base.modules.items()}
+        ctx = analyse(prop, root, ov)
+    except AnalysisError as exc:
+        return ("whole-tree-flip-comparisons", "keep", "analysis-error", str(exc), [])
+    except Exception as exc:
+        return ("whole-tree-flip-comparisons", "keep", "analysis-error", "internal: " + repr(exc), [])
+    new = sorted({(f.rule, f.rel, f.func) for f in ctx.findings} - base_sig)
+    if new:
+        return ("whole-tree-flip-comparisons", "keep", "FALSE-ALARM", " :: ".join(new[0]), [])
+    if getattr(ctx, "problems", None):
+        return ("whole-tree-flip-comparisons", "keep", "analysis-error", "; ".join(ctx.problems), [])
+    return ("whole-tree-flip-comparisons", "keep", "silent", "", [])
+
+
 def run_variants(prop, root, base_keys, only_controls):
     mod = rules_module(prop)
     vs = [v for v in getattr(mod, "VARIANTS", []) if (v.control or not only_controls)]
     jobs = [(prop, root, v, base_keys) for v in vs]
     if not only_controls:
         base_sig = {tuple(k.split(" :: ")[:3]) for k in base_keys}
-        extra = [run_reformat((prop, root, base_keys)), run_rename((prop, root, base_sig))]
+        extra = [run_reformat((prop, root, base_keys)), run_rename((prop, root, base_sig)), run_flip((prop, root, base_sig))]
     else:
         extra = []
     return extra + _run_variant_jobs(jobs)
